@@ -19,7 +19,7 @@ RULE = (
 ASSUMPTIONS = ["leaf values are generic reals (all matrix entries distinct) so a wrong element is always a wrong value",
                "torch indexing of the dense denotation defines the expected result; cases torch refuses are out of domain"]
 CHUNK = 8
-CASE_TIMEOUT = 1800
+CASE_TIMEOUT = 7200
 ALLOW = r"__getitem__|_getitem|_get_indices|_split_slice|_x_getitem|diagonal|_diagonal|_convert_indices_to_tensors|_compute_getitem_size"
 
 
